@@ -33,6 +33,8 @@ impl VxStrMap {
         ensures final(self)@ == old(self)@.insert(key@, v)
     { unimplemented!() }
     #[verifier::external_body]
+    pub fn contains_key(&self, key: &str) -> (r: bool) ensures r == self@.dom().contains(key@) { unimplemented!() }
+    #[verifier::external_body]
     pub fn clear(&mut self) ensures final(self)@ == Map::<Seq<char>, (u64, Vec<u8>)>::empty() { unimplemented!() }
     #[verifier::external_body]
     pub fn is_empty(&self) -> (r: bool) ensures r == (self@.dom().len() == 0 && self@.dom().finite()) { unimplemented!() }
